@@ -9,7 +9,8 @@ CID = "C03"
 def run(ctx):
     ctx.assumptions += ["model = coq/Model/Broker.v version V1 (hand written); critical sections atomic; timers may fire at any step",
                         "tie = scenario correspondence (forced-order scripts replayed in the extracted model) + property predicates on herds",
-                        "matching pool relational in Model/Broker.v; the array SnowflakeHeap (Model/BrokerHeap.v) is proved to refine it and is run against snowflake-heap.go (`broker heap`); Go scheduler/timers not verified"]
+                        "matching pool relational in Model/Broker.v; the array SnowflakeHeap (Model/BrokerHeap.v) is proved to refine it and is run against snowflake-heap.go (`broker heap`); Go scheduler/timers not verified",
+                        "loads: Go's signed 64-bit client count z enters the model as z + 2^63 (C03_load_order_is_integer_order: the model's order is then the order of the integers)"]
     ctx.trusted.append("harness/overlay/broker/zz_verif_broker_test.go scenario driver; lib/checks/brokerlib.py label derivation")
     scens = brokerlib.scenarios(ctx.rng, ctx.tier)
     brokerlib.run_scenarios(ctx, scens, {CID}, "broker-scenarios")
